@@ -11,7 +11,8 @@
 (*      [ins    |-> sequence of inputs (the parameters of f, in order),                         *)
 (*       defs   |-> sequence, defs[i] = << >> (no default) or <<d>> (input i has default d),    *)
 (*       data   |-> << >> (nothing computed before) or <<map>>: previously computed values,     *)
-(*       expiry |-> << >> (no expiries) or <<map>>: key -> None or a datetime,                  *)
+(*       expiry |-> << >> (no expiries), <<map>>: key -> None or a datetime, or                 *)
+(*                  <<"scalar", e>>: one None / datetime for every row ("scalars broadcast"),   *)
 (*       today  |-> ordinal of the day on which the call is made]                               *)
 (* The function handed to perdictable is F: it returns the tuple ("f", arguments...), so the    *)
 (* value of a row tells which arguments it was computed from; the driver's F also records every *)
@@ -50,12 +51,12 @@ KeysSortedBy(S, pos) == SetToSortSeq(S, LAMBDA a, b : LexLess(Pick(a, pos), Pick
 Identity(nk) == [n \in 1..nk |-> n]
 SortedKeys(S, nk) == IF S = {<<>>} THEN <<<<>>>> ELSE KeysSortedBy(S, Identity(nk))
 
-\* Named deviation KeyColumnOrder: the statement says "sorted by key" and does not say which key
-\* column is the major one.  The code sorts with dictable.sort([cols]), which compares the rows'
-\* key *dicts*, i.e. by the key columns in alphabetical order of their names, not in the order of
-\* `on`.  Accepted: ascending lexicographic order under any priority of the key columns.
-Priorities(nk) == {p \in [1..nk -> 1..nk] : \A i, j \in 1..nk : p[i] = p[j] => i = j}
-KeyOrders(S, nk) == IF S = {<<>>} THEN {<<<<>>>>} ELSE {KeysSortedBy(S, p) : p \in Priorities(nk)}
+\* "sorted by key": the keys are given by `on`, so the rows are in ascending lexicographic order of
+\* the key columns in the order of `on`.
+\* (History: the code used to sort with dictable.sort([cols]), i.e. by the key columns in alphabetical
+\* order of their names; that was a genuine defect - fixed in /repo by `res.sort(*as_list(on))` - and the
+\* former named deviation KeyColumnOrder is gone: the order is pinned whatever the rendering.)
+KeyOrders(S, nk, alpha) == IF S = {<<>>} THEN {<<<<>>>>} ELSE {SortedKeys(S, nk)}
 
 \* join(inputs, on, defaults): row n = the n-th key with the value of every input at that key
 JoinRowsIn(c, ks) == [n \in 1..Len(ks) |-> [key |-> ks[n], vals |-> Args(c, ks[n])]]
@@ -67,9 +68,12 @@ F(args) == VTup(<<VStr("f")>> \o args)
 \* "a previously computed value is supplied with an expiry date in the past"
 IsPast(e, today) == IsDate(e) /\ Pay(e)[1] < today
 Cached(c, k)     == c.data # <<>> /\ k \in DOMAIN c.data[1]
+ExpiryKind(c)    == IF c.expiry = <<>> THEN "absent" ELSE IF Len(c.expiry) = 2 THEN "scalar" ELSE "keyed"
+HasExpiry(c, k)  == ExpiryKind(c) = "scalar" \/ (ExpiryKind(c) = "keyed" /\ k \in DOMAIN c.expiry[1])
+ExpiryAt(c, k)   == IF ExpiryKind(c) = "scalar" THEN c.expiry[2] ELSE c.expiry[1][k]      \* scalars broadcast
 CachedPast(c, k) == /\ Cached(c, k)
-                    /\ c.expiry # <<>> /\ k \in DOMAIN c.expiry[1]
-                    /\ IsPast(c.expiry[1][k], c.today)
+                    /\ HasExpiry(c, k)
+                    /\ IsPast(ExpiryAt(c, k), c.today)
 RowValue(c, k) == IF CachedPast(c, k) THEN c.data[1][k] ELSE F(Args(c, k))
 RunRowsIn(c, ks) == [n \in 1..Len(ks) |-> [key |-> ks[n], v |-> RowValue(c, ks[n])]]
 RunRows(c, nk)   == RunRowsIn(c, SortedKeys(JoinKeys(c), nk))
@@ -86,7 +90,12 @@ SameBag(s, t) == Len(s) = Len(t) /\ \A x \in Range(s) \cup Range(t) : Count(s, x
 \* same join as the inputs (with default None), so when *every* table input has a default the
 \* code's outer join would also pick up cached keys that no input has - the statement does not
 \* say whether the cache is an "input"; such configurations are outside (CacheInsideJoin).
-ExpiryOnCachedOnly(c) == c.expiry # <<>> => (c.data # <<>> /\ DOMAIN c.expiry[1] \subseteq DOMAIN c.data[1])
+\* A scalar expiry is assigned to every row: a None is "no expiry" spelt out; a date is inside the domain
+\* when every row of the join was computed before.
+ExpiryOnCachedOnly(c) ==
+    CASE ExpiryKind(c) = "absent" -> TRUE
+      [] ExpiryKind(c) = "keyed"  -> c.data # <<>> /\ DOMAIN c.expiry[1] \subseteq DOMAIN c.data[1]
+      [] ExpiryKind(c) = "scalar" -> IsNone(c.expiry[2]) \/ (c.data # <<>> /\ JoinKeys(c) \subseteq DOMAIN c.data[1])
 CacheInsideJoin(c)    == (Strict(c) = {} /\ c.data # <<>>) => DOMAIN c.data[1] \subseteq JoinKeys(c)
 InDomain(c) == /\ ExpiryOnCachedOnly(c)
                /\ CacheInsideJoin(c)
@@ -107,13 +116,13 @@ InDomain(c) == /\ ExpiryOnCachedOnly(c)
 KeyCols(nk)    == [n \in 1..nk |-> "#" \o ToString(n)]
 RunCols(nk)    == KeyCols(nk) \o <<"#v">>
 JoinCols(c, nk)== (IF AllScalar(c) THEN <<>> ELSE KeyCols(nk)) \o [i \in 1..NIn(c) |-> "@" \o ToString(i)]
-RunOutcomes(c, nk) ==
+RunOutcomes(c, nk, alpha) ==
     IF AllScalar(c) THEN {[kind |-> "value", v |-> F(Args(c, <<>>))]}
     ELSE IF JoinKeys(c) = {} THEN {[kind |-> "none"], [kind |-> "data"], [kind |-> "empty"]}
-    ELSE {[kind |-> "table", cols |-> RunCols(nk), rows |-> RunRowsIn(c, ks)] : ks \in KeyOrders(JoinKeys(c), nk)}
-JoinOutcomes(c, nk) ==
+    ELSE {[kind |-> "table", cols |-> RunCols(nk), rows |-> RunRowsIn(c, ks)] : ks \in KeyOrders(JoinKeys(c), nk, alpha)}
+JoinOutcomes(c, nk, alpha) ==
     IF JoinKeys(c) = {} THEN {[kind |-> "empty"]}
-    ELSE {[kind |-> "table", cols |-> JoinCols(c, nk), rows |-> JoinRowsIn(c, ks)] : ks \in KeyOrders(JoinKeys(c), nk)}
+    ELSE {[kind |-> "table", cols |-> JoinCols(c, nk), rows |-> JoinRowsIn(c, ks)] : ks \in KeyOrders(JoinKeys(c), nk, alpha)}
 
 \* ---------------------------------------------------------------------------------------------
 \* Mechanism of join as the code does it (compared with the law inside TLC only):
